@@ -251,6 +251,9 @@ def main(argv):
             if i % (3 if quick else 1) == 0 and docs:
                 enc = [pyb64.b64encode(d) for d in docs]
                 sruns.append((docs, b"\n".join(enc) + b"\n", "drop2" if i % 2 == 0 else "extra"))
+                if i % 2 == 0:
+                    # a child with memory (numbers the lines it reads); last stdin line unterminated every other time
+                    sruns.append((docs, b"\n".join(enc) + (b"\n" if i % 4 == 0 or enc[-1] == b"" else b""), "number"))
         smodel = None
         if drv is not None:
             rc, smodel, err = run_lines(drv, ["BS %s %s" % (k, hx(inp)) for (_, inp, k) in sruns])
@@ -263,6 +266,18 @@ def main(argv):
             c.count(("stream", k, inp), nontrivial=True, bucket="child-%s/%s" % (k, "1-line" if nlines == 1 else "n-lines"))
             rep = {"op": "b64filter", "child": "child_%s.py" % k, "stdin": inp.decode("latin1"), "documents": [d.decode("latin1") for d in docs],
                    "status": st, "stdout": so.decode("latin1")[:1000], "stderr": se.decode("utf-8", "replace")[-300:]}
+            if k == "number":
+                # oracle: document j = the numbered answers at the positions of its own lines
+                pos, want = 0, []
+                for d in docs:
+                    dls = doc_lines(d)
+                    want.append(b"\n".join(b"%d:" % (pos + x + 1) + l for x, l in enumerate(dls)) + (b"\n" if d.endswith(b"\n") else b""))
+                    pos += len(dls)
+                if st != 0 or so != b"".join(pyb64.b64encode(w) + b"\n" for w in want):
+                    c.violation("stateful-child: with the numbering child (answer i = 'i:' + line) the documents do not carry the numbers of their own lines: status %s" % st, dict(rep, expected=[w.decode("latin1")[:200] for w in want]))
+                if smodel is not None and not (smodel[j] == "OK " + hx(so) and st == 0):
+                    c.broken.append("correspondence b64filter stream model vs bin/b64filter with child_number.py: stdin %r: model %s, tool status %s" % (inp[:100], smodel[j][:100], st))
+                continue
             must_fail = (k == "extra") or nlines >= 2
             if st == "timeout":
                 c.violation("hang: b64filter with a child that %s did not finish" % ("drops a line" if k == "drop2" else "adds a line"), rep)
